@@ -20,7 +20,13 @@ pub mod raw;
 pub use origin::WithOrigin;
 pub use raw::WithRawSiginfo;
 
+#[cfg(sighook_verif)]
+use std::sync::atomic::Ordering;
+#[cfg(not(sighook_verif))]
 use std::sync::atomic::{AtomicBool, Ordering};
+
+#[cfg(sighook_verif)]
+use signal_hook_registry::verif::shim::AtomicBool;
 
 use libc::{c_int, siginfo_t};
 
